@@ -413,18 +413,52 @@ def specPerm (op : List Char) : Option (PermKind × Nat) :=
     if whos.length != whos.eraseDups.length || whos.contains 'a' then none
     else (clauses.mapM one).map fun ms => (k, ms.foldl (· ||| ·) 0)
 
+/-- reference reading of symbolic operands with interacting clauses (POSIX chmod, from the text):
+    clauses `who+ op perms` with who in ugoa, op one of + - =, perms a subset of rwx, applied from
+    left to right to mode 0; anything else is left to `specPerm` -/
+def specPermSeq (op : List Char) : Option (PermKind × Nat) :=
+  let (k, rest) : PermKind × List Char := match op with
+    | '-' :: r => (.atLeast, r) | '/' :: r => (.anyOf, r) | r => (.exact, r)
+  let classMask (w : Char) : Option Nat :=
+    if w == 'u' then some 0o700 else if w == 'g' then some 0o070 else if w == 'o' then some 0o007
+    else if w == 'a' then some 0o777 else none
+  let permBits (p : Char) : Option Nat :=
+    if p == 'r' then some 0o444 else if p == 'w' then some 0o222 else if p == 'x' then some 0o111 else none
+  let clause (m : Nat) (c : List Char) : Option Nat :=
+    let whos := c.takeWhile fun x => x == 'u' || x == 'g' || x == 'o' || x == 'a'
+    match c.dropWhile (fun x => x == 'u' || x == 'g' || x == 'o' || x == 'a') with
+    | o :: ps =>
+      if whos.isEmpty then none else
+      match whos.mapM classMask, ps.mapM permBits with
+      | some mks, some bs =>
+        let mask := mks.foldl (· ||| ·) 0
+        let bits := (bs.foldl (· ||| ·) 0) &&& mask
+        if o == '+' then some (m ||| bits)
+        else if o == '-' then some (m &&& (0o7777 - bits))
+        else if o == '=' then some ((m &&& (0o7777 - mask)) ||| bits)
+        else none
+      | _, _ => none
+    | [] => none
+  if rest.isEmpty || rest.any (fun c => decide (48 ≤ c.toNat) && decide (c.toNat ≤ 57)) then none
+  else ((FuModel.Find.Perm.splitComma [] rest).foldl (fun acc c => acc.bind fun m => clause m c) (some 0)).map fun m => (k, m)
+
+def specPermAll (op : List Char) : Option (PermKind × Nat) :=
+  match specPerm op with
+  | some r => some r
+  | none => specPermSeq op
+
 def predC13 (req obs : List String) : Option Bool :=
   match req, obs with
   | "find" :: _, _ => predFind req obs
   | ["perm-parse", h], o => do
     let op ← charsOfHex h
-    match specPerm op with
+    match specPermAll op with
     | some (k, m) => pure (o == ["ok", toString (kindNum k), toString m, toString m])
     | none => pure (o != ["panic"])
   | ["perm-match", h, mode], [o] => do
     let op ← charsOfHex h
     let mode ← mode.toNat?
-    match specPerm op with
+    match specPermAll op with
     | some (k, m) =>
       let bitsOf (n : Nat) := (List.range 12).filter n.testBit
       let exp := match k with
